@@ -28,6 +28,7 @@ PROPERTY = 'C16'
 
 REGION_JUNIT_ACT_SYNTAX_ERROR = 'junit-act-syntax-error'
 REGION_CASE_LISTED_TWICE = 'case-listed-twice'
+REGION_NOTADIR = 'reference-through-regular-file'
 
 REAL_K1 = (
     'exactly_lib.test_suite.processing.SuitesExecutor',
@@ -59,6 +60,16 @@ STUB_PARTS = ('case processor = the real ProcessorFromAccessorAndExecutor around
               'parser / executor; the executor returns FullExeResults that the real full_execution.execute produced '
               'on stub instructions (vsym.exeharness)')
 
+STUB_PROCESSOR_CONSTRUCTOR = ('processors.new_processor_that_should_not_pollute_current_process -> constructor of the '
+                              'recording stub case processor (K2 only)')
+STUB_GLOB_ORDER = ('pathlib.Path.glob -> the real matches, yielded in a symbolic order (contract: the order of glob is '
+                   'unspecified)')
+STUB_CLOCK = ('datetime.datetime.now in test_suite.processing / reporting / reporters -> deterministic clock '
+              '(CrossHair makes time symbolic; timing is outside the claim)')
+STUB_PATH_HASH = ('pathlib.PurePath.__hash__ -> str.__hash__(str(path)) (work-around: CrossHair short-circuits the '
+                  'builtin hash() inside pathlib into a symbolic int)')
+STUB_MKDTEMP = 'sandbox_dir_resolving.mk_tmp_dir_with_prefix -> counter-named directories (CrossHair makes random symbolic)'
+
 OUTSIDE_REPORT = ('timing fields, time stamps, host name', 'XML formatting beyond the counted attributes and the '
                                                            'testcase / failure / error elements',
                   'the summary the progress reporter writes to stderr', 'ANSI colours (output is not a terminal)')
@@ -76,13 +87,24 @@ def _kinds_pre(ks, n: int) -> bool:
     return True
 
 
+def _k1_kinds(c, k0, k1, k2):
+    """the concrete outcomes of the cases; a `first` in the case fixes the outcome of the first case (k0 is then 0)"""
+    n = L.n_cases_of(c['layout'])
+    ks = [ob.concrete_int(k, 0, L.N_KINDS - 1) for k in (k0, k1, k2)[:n]]
+    if 'first' in c:
+        ks[0] = c['first']
+    return ks
+
+
 def _pre_k1(k0: int, k1: int, k2: int) -> bool:
     c = ob.case()
     n = L.n_cases_of(c['layout'])
     if not _kinds_pre((k0, k1, k2), n):
         return False
+    if 'first' in c and k0 != 0:
+        return False
     if c['junit'] and ob.excluded(REGION_JUNIT_ACT_SYNTAX_ERROR):
-        if any(k == L.K_ACT_SYNTAX_ERROR for k in (k0, k1, k2)[:n]):
+        if L.K_ACT_SYNTAX_ERROR in _k1_kinds(c, k0, k1, k2):
             return False
     return True
 
@@ -94,8 +116,7 @@ def k1_progress(k0: int, k1: int, k2: int) -> bool:
     """
     c = ob.case()
     layout = c['layout']
-    n = L.n_cases_of(layout)
-    kinds = [ob.concrete_int(k, 0, L.N_KINDS - 1) for k in (k0, k1, k2)[:n]]
+    kinds = _k1_kinds(c, k0, k1, k2)
     obs, exp = L.run_suites_executor(layout, kinds, False)
     ok = L.progress_ok(obs, L.expected_events_of(exp), kinds, bool(c.get('oracle_bug')))
     ok = ok and obs.processed == [L.FAKE_ROOT / cn for _s, cs, _r in exp for cn, _k in cs]
@@ -109,30 +130,35 @@ def k1_junit(k0: int, k1: int, k2: int) -> bool:
     """
     c = ob.case()
     layout = c['layout']
-    n = L.n_cases_of(layout)
-    kinds = [ob.concrete_int(k, 0, L.N_KINDS - 1) for k in (k0, k1, k2)[:n]]
-    obs_p, _ = L.run_suites_executor(layout, kinds, False)
-    obs_j, exp = L.run_suites_executor(layout, kinds, True)
-    ok = L.junit_ok(obs_j, exp, bool(c.get('oracle_bug')))
-    ok = ok and L.same_cases_listed(obs_p.out, obs_j)
-    ok = ok and obs_j.processed == obs_p.processed
+    kinds = _k1_kinds(c, k0, k1, k2)
+    obs, exp = L.run_suites_executor(layout, kinds, True)
+    ok = L.junit_ok(obs, exp, bool(c.get('oracle_bug')))
+    # "the reporters list the same cases": the progress lines (which k1_progress compares with the same expected
+    # list) that the JUnit reporter writes to stderr through the progress reporter's own sub-suite reporter
+    ev, rest = L.parse_progress(obs.err)
+    ok = ok and ev == L.expected_events_of(exp) and rest == []
+    ok = ok and obs.exit_code == 0
+    ok = ok and obs.processed == [L.FAKE_ROOT / cn for _s, cs, _r in exp for cn, _k in cs]
     return ob.post(ok)
 
 
 _S = 'r.suite'
-LAYOUTS_QUICK = [
+LAYOUTS_N01 = [
     ('0', (_S, 0, ())),
     ('1', (_S, 1, ())),
-    ('2', (_S, 2, ())),
-    ('sub1+1', (_S, 1, (('a.suite', 1, ()),))),
-    ('sub1,sub1+0', (_S, 0, (('a.suite', 1, ()), ('b.suite', 1, ())))),
+    ('sub1+0', (_S, 0, (('a.suite', 1, ()),))),
 ]
-LAYOUTS_THOROUGH = [
+LAYOUTS_N2_QUICK = [
+    ('sub1+1', (_S, 1, (('a.suite', 1, ()),))),
+]
+LAYOUTS_N2_THOROUGH = [
+    ('2', (_S, 2, ())),
+    ('sub1,sub1+0', (_S, 0, (('a.suite', 1, ()), ('b.suite', 1, ())))),
+    ('sub(sub1+0)+1', (_S, 1, (('a.suite', 0, (('b.suite', 1, ()),)),))),
+]
+LAYOUTS_N3_THOROUGH = [
     ('3', (_S, 3, ())),
-    ('sub2+1', (_S, 1, (('a.suite', 2, ()),))),
-    ('sub1,sub1+1', (_S, 1, (('a.suite', 1, ()), ('b.suite', 1, ())))),
     ('sub(sub1+1)+1', (_S, 1, (('a.suite', 1, (('b.suite', 1, ()),)),))),
-    ('sub0,sub2+0', (_S, 0, (('a.suite', 0, ()), ('b.suite', 2, ())))),
 ]
 
 
@@ -144,41 +170,459 @@ def _layout_text(layout) -> str:
     return s
 
 
+def _k1_ob(name, layout, junit, timeout, first=None):
+    n = L.n_cases_of(layout)
+    c = dict(layout=layout, junit=junit)
+    what = 'every assignment of the 14 outcomes (%s) to its %d case(s)' % (', '.join(L.KINDS), n)
+    if first is not None:
+        c['first'] = first
+        name += ':first=%d' % first
+        what += ' in which the first case processed ends with ' + L.KINDS[first]
+    return Ob(
+        name='K1:%s:%s' % ('junit' if junit else 'progress', name),
+        fn='k1_junit' if junit else 'k1_progress', case=c, kernel='K1',
+        bound='hierarchy %s; %s; %s' % (_layout_text(layout), what,
+                                        'JUnit reporter: XML report and the progress lines on stderr' if junit else 'progress reporter'),
+        timeout=timeout, selector=True,
+        real=REAL_K1_JUNIT if junit else REAL_K1_PROGRESS,
+        stubs=(STUB_PARTS, STUB_CLOCK, STUB_PATH_HASH), outside=OUTSIDE_REPORT,
+        entry='SuitesExecutor.execute_and_report with RootSuiteProcessingReporter.execution_reporter')
+
+
 def _k1_obligations(tier: str) -> List[Ob]:
     obs = []
-    layouts = list(LAYOUTS_QUICK) + (LAYOUTS_THOROUGH if tier == 'thorough' else [])
-    for name, layout in layouts:
-        n = L.n_cases_of(layout)
-        t = {0: 60, 1: 90, 2: 300, 3: 2400}[n]
-        for junit in (False, True):
-            obs.append(Ob(
-                name='K1:%s:%s' % ('junit' if junit else 'progress', name),
-                fn='k1_junit' if junit else 'k1_progress',
-                case=dict(layout=layout, junit=junit), kernel='K1',
-                bound='hierarchy %s; every assignment of the 14 outcomes (%s) to its %d case(s); %s' % (
-                    _layout_text(layout), ', '.join(L.KINDS), n,
-                    'JUnit reporter compared with the progress reporter on the same run' if junit else 'progress reporter'),
-                timeout=t * (2 if junit else 1), selector=True,
-                real=REAL_K1_JUNIT if junit else REAL_K1_PROGRESS,
-                stubs=(STUB_PARTS,), outside=OUTSIDE_REPORT,
-                entry='SuitesExecutor.execute_and_report with RootSuiteProcessingReporter.execution_reporter',
-            ))
-    two = LAYOUTS_QUICK[3][1]
+    for junit in (False, True):
+        f = 3 if junit else 1
+        for name, layout in LAYOUTS_N01:
+            obs.append(_k1_ob(name, layout, junit, 120 * f))
+        for name, layout in LAYOUTS_N2_QUICK + (LAYOUTS_N2_THOROUGH if tier == 'thorough' else []):
+            obs.append(_k1_ob(name, layout, junit, 300 * f))
+        if tier == 'thorough':
+            for name, layout in LAYOUTS_N3_THOROUGH:
+                for first in range(L.N_KINDS):
+                    obs.append(_k1_ob(name, layout, junit, 300 * f, first=first))
+    two = LAYOUTS_N2_QUICK[0][1]
     obs.append(Ob(name='K1:progress:seeded-oracle-error', fn='k1_progress',
                   case=dict(layout=two, junit=False, oracle_bug=True), kernel='K1', expect=ob.REFUTE,
                   bound='seeded oracle error: XPASS taken for a successful outcome', timeout=300, selector=True,
-                  real=REAL_K1_PROGRESS, stubs=(STUB_PARTS,)))
+                  real=REAL_K1_PROGRESS, stubs=(STUB_PARTS, STUB_CLOCK, STUB_PATH_HASH)))
     obs.append(Ob(name='K1:junit:seeded-oracle-error', fn='k1_junit',
                   case=dict(layout=two, junit=True, oracle_bug=True), kernel='K1', expect=ob.REFUTE,
                   bound='seeded oracle error: XPASS taken for a successful outcome', timeout=600, selector=True,
-                  real=REAL_K1_JUNIT, stubs=(STUB_PARTS,)))
+                  real=REAL_K1_JUNIT, stubs=(STUB_PARTS, STUB_CLOCK, STUB_PATH_HASH)))
     return obs
+
+
+# --------------------------------------------------------------------------- K2
+
+REAL_K2 = (
+    'exactly_lib.cli.main_program.MainProgram.execute',
+    'exactly_lib.cli.main_program.MainProgram.execute_test_suite',
+    'exactly_lib.cli.program_modes.test_suite.argument_parsing._Parser',
+    'exactly_lib.test_suite.processing.Processor',
+    'exactly_lib.test_suite.processing._SuiteExecutionReporter',
+    'exactly_lib.test_suite.processing.SuitesExecutor',
+    'exactly_lib.test_suite.enumeration.DepthFirstEnumerator',
+    'exactly_lib.test_suite.file_reading.suite_hierarchy_reading.Reader',
+    'exactly_lib.test_suite.file_reading.suite_hierarchy_reading._SingleFileReader',
+    'exactly_lib.test_suite.file_reading.suite_file_reading.read_suite_document',
+    'exactly_lib.test_suite.file_reading.suite_file_reading._Parser',
+    'exactly_lib.test_suite.instruction_set.utils.parse_file_names_resolver',
+    'exactly_lib.test_suite.instruction_set.utils.single_regular_file_resolver',
+    'exactly_lib.test_suite.instruction_set.utils.FileNamesResolverForPlainFileName',
+    'exactly_lib.test_suite.instruction_set.utils.FileNamesResolverForGlobPattern',
+    'exactly_lib.test_suite.instruction_set.utils.is_wildcard_pattern',
+    'exactly_lib.test_suite.instruction_set.sections.cases._CasesSectionParser',
+    'exactly_lib.test_suite.instruction_set.sections.suites._SuitesSectionParser',
+    'exactly_lib.test_suite.instruction_set.sections.suites.regular_file_or_default_suite_file',
+    'exactly_lib.test_suite.result_reporters.SuiteReadErrorReporter',
+    'exactly_lib.test_suite.exit_values',
+    'exactly_lib.test_suite.reporters.simple_progress_reporter.SimpleProgressRootSuiteProcessingReporter',
+    'exactly_lib.test_suite.reporters.simple_progress_reporter.SimpleProgressRootSuiteReporter',
+    'exactly_lib.test_suite.reporters.junit.JUnitRootSuiteProcessingReporter',
+    'exactly_lib.test_suite.reporters.junit.JUnitRootSuiteReporter',
+)
+
+# the fixture: files that exist beside the generated suite files
+FILES = {'1.case': '', '2.case': '', '3.case': '', 'd/x.case': '', 'd/y.case': '', 'e/z.case': ''}
+
+# catalogue of lines of a [suites] section of a suite file in the fixture's top directory
+SL = ('', 'a.suite', 'b.suite', 'd', 'd/exactly.suite', '*[ab].suite', '*.suite', 'nope.suite', 'e', 'r.suite',
+      "'a.suite'", 'a.suite b.suite', '*/exactly.suite', '1.case/x', '[ab].suite', "'*[ab].suite'", '?.suite')
+# catalogue of lines of a [cases] section of a suite file in the fixture's top directory
+CL = ('', '1.case', '2.case', '*.case', '*[23].case', '?.case', 'nope.case', "'*.case'", 'd', 'd/x.case', '**/*.case',
+      'd/*.case', '*', '1.case 2.case', '1.case/x', '*.nomatch', '[12].case', '"1.case"')
+# text that makes a suite file syntactically invalid
+BROKEN = ('[nosuch]\n', '[conf]\nnosuchinstruction\n', '[suites]\n\'unterminated\n', '[cases]\n1.case superfluous\n',
+          '[cases\n', '[conf]\npreprocessor =\n', '[setup]\nnosuchinstruction\n')
+NOTADIR_LINE = '1.case/x'
+
+
+def _lines(*ls):
+    return [x for x in ls if x]
+
+
+def _S(suites=(), cases=(), broken=None):
+    return L.SuiteSpec(_lines(*suites), _lines(*cases), broken)
+
+
+def _sc_root_suites(x, y):
+    """root [suites] holds line SL[x]; the sub-suites list one case each"""
+    return dict(specs={'r.suite': _S([SL[x]], ['1.case']), 'a.suite': _S([], ['2.case']), 'b.suite': _S([], ['3.case']),
+                       'd/exactly.suite': _S([], ['x.case'])})
+
+
+def _sc_root_suites2(x, y):
+    """root [suites] holds the lines SL[x], SL[y]"""
+    return dict(specs={'r.suite': _S([SL[x], SL[y]], ['1.case']), 'a.suite': _S([], ['2.case']),
+                       'b.suite': _S([], ['3.case']), 'd/exactly.suite': _S([], ['x.case', 'y.case'])})
+
+
+def _sc_sub_suites(x, y):
+    """root lists a.suite and b.suite; a.suite's [suites] holds SL[x] and b.suite's holds SL[y]"""
+    return dict(specs={'r.suite': _S(['a.suite', 'b.suite'], ['1.case']), 'a.suite': _S([SL[x]], ['2.case']),
+                       'b.suite': _S([SL[y]], ['3.case']), 'd/exactly.suite': _S([], ['*.case'])})
+
+
+def _sc_chain(x, y):
+    """chain r -> a -> b; b.suite's [suites] holds SL[x]"""
+    return dict(specs={'r.suite': _S(['a.suite'], ['1.case']), 'a.suite': _S(['b.suite'], ['2.case']),
+                       'b.suite': _S([SL[x]], ['3.case']), 'd/exactly.suite': _S([], ['y.case', 'x.case'])})
+
+
+def _sc_root_cases(x, y):
+    """root [cases] holds the lines CL[x], CL[y]; one sub-suite"""
+    return dict(specs={'r.suite': _S(['a.suite'], [CL[x], CL[y]]), 'a.suite': _S([], ['3.case', '2.case'])})
+
+
+def _sc_sub_cases(x, y):
+    """a.suite (listed by the root) holds the [cases] lines CL[x]; root holds CL[y]"""
+    return dict(specs={'r.suite': _S(['a.suite'], [CL[y]]), 'a.suite': _S([], [CL[x]])})
+
+
+def _sc_globs(x, y):
+    """suites and cases given by glob patterns with 2 - 3 matches each"""
+    return dict(specs={'r.suite': _S(['*[ab].suite', 'd'], ['*.case']), 'a.suite': _S([], ['d/?.case']),
+                       'b.suite': _S([], ['*[13].case', '**/z.case']), 'd/exactly.suite': _S([], ['*.case'])})
+
+
+def _sc_broken(x, y):
+    """syntax error BROKEN[x] in the root suite file (y = 0), in a sub-suite (y = 1) or in a sub-sub-suite (y = 2)"""
+    b = [None, None, None]
+    b[y] = BROKEN[x]
+    return dict(specs={'r.suite': _S(['a.suite'], ['1.case'], b[0]), 'a.suite': _S(['b.suite'], ['2.case'], b[1]),
+                       'b.suite': _S([], ['3.case'], b[2])})
+
+
+def _sc_dir_arg(x, y):
+    """the suite is given as a directory on the command line (default suite file); its [suites] holds SDL[x]"""
+    sdl = ('', 's.suite', '*.suite', 'exactly.suite', 'sub', 'sub/exactly.suite', 'nope')
+    return dict(specs={'d/exactly.suite': _S([sdl[x]], ['*.case']), 'd/s.suite': _S([], ['y.case']),
+                       'd/sub/exactly.suite': _S([], ['w.case'])},
+                files={'d/sub/w.case': ''}, root='d/exactly.suite', via_dir_arg=True)
+
+
+def _sc_outcome(x, y):
+    """a valid two-suite hierarchy in which case 2.case ends with outcome x and 1.case with outcome y"""
+    return dict(specs={'r.suite': _S(['a.suite'], ['1.case', '3.case']), 'a.suite': _S([], ['2.case'])},
+                kinds={'2.case': x, '1.case': y})
+
+
+# name -> (builder, size of x, size of y, number of glob orders, description of the symbolic selectors)
+SCENARIOS = {
+    'root-suites': (_sc_root_suites, len(SL), 1, 2),
+    'root-suites-x2': (_sc_root_suites2, len(SL), len(SL), 2),
+    'sub-suites': (_sc_sub_suites, len(SL), len(SL), 1),
+    'chain': (_sc_chain, len(SL), 1, 2),
+    'root-cases': (_sc_root_cases, len(CL), len(CL), 2),
+    'sub-cases': (_sc_sub_cases, len(CL), 4, 2),
+    'globs': (_sc_globs, 1, 1, 6),
+    'broken': (_sc_broken, len(BROKEN), 3, 1),
+    'dir-arg': (_sc_dir_arg, 7, 1, 2),
+    'outcome': (_sc_outcome, L.N_KINDS, 3, 1),
+}
+
+
+def _scenario(c, x: int, y: int):
+    build = SCENARIOS[c['scenario']][0]
+    if 'xs' in c:
+        x = c['xs'][x]
+    if 'ys' in c:
+        y = c['ys'][y]
+    sc = build(x, y)
+    specs = sc['specs']
+    entries = dict(FILES)
+    entries.update(sc.get('files', {}))
+    entries.update({p: s.text() for p, s in specs.items()})
+    tree = L.Tree(entries)
+    root = sc.get('root', 'r.suite')
+    return sc, specs, tree, root
+
+
+def _dims(c):
+    _b, nx, ny, ng = SCENARIOS[c['scenario']]
+    if 'xs' in c:
+        nx = len(c['xs'])
+    if 'ys' in c:
+        ny = len(c['ys'])
+    if 'ng' in c:
+        ng = c['ng']
+    return nx, ny, ng
+
+
+def _uses_notadir(specs) -> bool:
+    return any(NOTADIR_LINE in (s.suites + s.cases) for s in specs.values())
+
+
+def _pre_k2(x: int, y: int, g: int) -> bool:
+    c = ob.case()
+    nx, ny, ng = _dims(c)
+    if not (0 <= x < nx and 0 <= y < ny and 0 <= g < ng):
+        return False
+    if c.get('junit') and ob.excluded(REGION_JUNIT_ACT_SYNTAX_ERROR) and c['scenario'] == 'outcome':
+        sc, _sp, _t, _r = _scenario(c, ob.concrete_int(x, 0, nx - 1), ob.concrete_int(y, 0, ny - 1))
+        if L.K_ACT_SYNTAX_ERROR in sc['kinds'].values():
+            return False
+    if ob.excluded(REGION_CASE_LISTED_TWICE) or ob.excluded(REGION_NOTADIR):
+        sc, specs, tree, root = _scenario(c, ob.concrete_int(x, 0, nx - 1), ob.concrete_int(y, 0, ny - 1))
+        if ob.excluded(REGION_NOTADIR) and _uses_notadir(specs):
+            return False
+        if ob.excluded(REGION_CASE_LISTED_TWICE) and L.has_case_listed_twice(L.expected_run(tree, specs, root)):
+            return False
+    return True
+
+
+def k2_hierarchy(x: int, y: int, g: int) -> bool:
+    """
+    pre: _pre_k2(x, y, g)
+    post: _
+    """
+    c = ob.case()
+    nx, ny, ng = _dims(c)
+    x = ob.concrete_int(x, 0, nx - 1)
+    y = ob.concrete_int(y, 0, ny - 1)
+    g = ob.concrete_int(g, 0, ng - 1)
+    sc, specs, tree, root = _scenario(c, x, y)
+    kinds = sc.get('kinds', {})
+
+    def kind_of(rel: str) -> int:
+        return kinds.get(rel, 0)
+
+    junit = bool(c.get('junit'))
+    order = L.once_each(L.expected_run(tree, specs, root))
+    obs = L.run_main_program_on_suite(tree, root, junit, kind_of, glob_rot=g // 2, glob_rev=(g % 2 == 1),
+                                      via_dir_arg=bool(sc.get('via_dir_arg')))
+    return ob.post(L.hierarchy_ok(obs, order, root, junit, kind_of, bool(c.get('oracle_bug'))))
+
+
+def _k2_ob(name, scenario, timeout, bound, junit=False, **case):
+    c = dict(scenario=scenario, junit=junit)
+    c.update(case)
+    return Ob(name='K2:' + name, fn='k2_hierarchy', case=c, kernel='K2', timeout=timeout, selector=True,
+              bound=bound + '; %s reporter; fixture files %s' % ('JUnit' if junit else 'progress', ', '.join(sorted(FILES))),
+              real=REAL_K2, stubs=(STUB_PROCESSOR_CONSTRUCTOR, STUB_PARTS, STUB_GLOB_ORDER, STUB_CLOCK, STUB_PATH_HASH),
+              outside=OUTSIDE_REPORT + OUTSIDE_K2,
+              entry="MainProgram.execute(['suite', '--reporter', R, FILE])")
+
+
+OUTSIDE_K2 = (
+    'the text of the error message of an invalid suite (stderr)',
+    'references that contain `..`, symbolic links, unreadable (permission) files, file names with special characters',
+    'a root suite file that does not exist (a command line usage error, exit 64)',
+    'hierarchies deeper than 3 suite files / wider than the catalogue lines allow',
+    'the same case file listed by two different suites counts as two listed cases (each is processed once per listing suite)',
+)
+
+# --------------------------------------------------------------------------- K3
+
+REAL_K3 = REAL_K2 + (
+    'exactly_lib.processing.processors.new_processor_that_should_not_pollute_current_process',
+    'exactly_lib.processing.processing_utils.ProcessorFromAccessorAndExecutor',
+    'exactly_lib.processing.processing_utils.AccessorFromParts',
+    'exactly_lib.processing.processors._Executor',
+    'exactly_lib.processing.exit_values.from_result',
+    'exactly_lib.test_suite.processing._process_and_time',
+    'exactly_lib.test_suite.reporters.simple_progress_reporter.SUCCESS_STATUSES',
+    'exactly_lib.test_suite.reporters.junit.FAIL_STATUSES',
+    'exactly_lib.test_suite.reporters.junit.ERROR_STATUSES',
+)
+
+# real test case files: (name, text of the case file, index of the outcome in L.KINDS, text for the [conf] of its suite)
+REAL_CASES = (
+    ('PASS', '[assert]\nexit-code == 0\n', 0, ''),
+    ('FAIL', '[assert]\nexit-code == 1\n', 1, ''),
+    ('XFAIL', '[conf]\nstatus = FAIL\n[assert]\nexit-code == 1\n', 2, ''),
+    ('XPASS', '[conf]\nstatus = FAIL\n[assert]\nexit-code == 0\n', 3, ''),
+    ('SKIPPED', '[conf]\nstatus = SKIP\n[assert]\nexit-code == 1\n', 4, ''),
+    ('VALIDATION_ERROR', '[setup]\ncopy non-existing-file\n', 5, ''),
+    ('HARD_ERROR', '[setup]\nfile f.txt = "a"\nfile f.txt = "b"\n', 6, ''),
+    ('act-phase SYNTAX_ERROR', '[act]\na\nb\n', 8, ''),
+    ('FILE_ACCESS_ERROR', '[setup]\nincluding non-existing.xly\n', 9, ''),
+    ('PRE_PROCESS_ERROR', '[assert]\nexit-code == 0\n', 10, '[conf]\npreprocessor = false\n'),
+    ('SYNTAX_ERROR', '[setup]\nnosuchinstruction\n', 11, ''),
+    ('unreadable (not UTF-8)', b'\xff\xfe[assert]\n', 12, ''),
+)
+K3_ACT_SYNTAX_ERROR = 7  # index into REAL_CASES
+
+
+def _pre_k3(k0: int, k1: int) -> bool:
+    c = ob.case()
+    n0 = len(c.get('k0s', REAL_CASES))
+    n1 = len(c.get('k1s', REAL_CASES))
+    if not (0 <= k0 < n0 and 0 <= k1 < n1):
+        return False
+    if c['junit'] and ob.excluded(REGION_JUNIT_ACT_SYNTAX_ERROR):
+        a, b = _k3_kinds(c, ob.concrete_int(k0, 0, n0 - 1), ob.concrete_int(k1, 0, n1 - 1))
+        if K3_ACT_SYNTAX_ERROR in (a, b):
+            return False
+    return True
+
+
+def _k3_kinds(c, k0: int, k1: int):
+    a = c['k0s'][k0] if 'k0s' in c else k0
+    b = c['k1s'][k1] if 'k1s' in c else k1
+    return a, b
+
+
+def k3_whole_program(k0: int, k1: int) -> bool:
+    """
+    pre: _pre_k3(k0, k1)
+    post: _
+    """
+    c = ob.case()
+    n0 = len(c.get('k0s', REAL_CASES))
+    n1 = len(c.get('k1s', REAL_CASES))
+    a, b = _k3_kinds(c, ob.concrete_int(k0, 0, n0 - 1), ob.concrete_int(k1, 0, n1 - 1))
+    ca, cb = REAL_CASES[a], REAL_CASES[b]
+    specs = {'r.suite': L.SuiteSpec(['s.suite'], ['c1.case', 'z.case'], conf=cb[3]),
+             's.suite': L.SuiteSpec([], ['c0.case'], conf=ca[3])}
+    entries = {p: s.text() for p, s in specs.items()}
+    entries['c0.case'] = ca[1]
+    entries['c1.case'] = cb[1]
+    entries['z.case'] = cb[1] if cb[3] else REAL_CASES[0][1]
+    tree = L.Tree(entries)
+    kinds = {'c0.case': ca[2], 'c1.case': cb[2], 'z.case': cb[2] if cb[3] else 0}
+    junit = bool(c['junit'])
+    order = L.expected_run(tree, specs, 'r.suite')
+    obs = L.run_main_program_on_suite(tree, 'r.suite', junit, None)
+    return ob.post(L.hierarchy_ok(obs, order, 'r.suite', junit, lambda rel: kinds[rel], bool(c.get('oracle_bug'))))
 
 
 # --------------------------------------------------------------------------- obligations
 
+def _idx(cat, *lines):
+    return [cat.index(x) for x in lines]
+
+
+def _k2_obligations(tier: str) -> List[Ob]:
+    obs = []
+    all_sl = 'every line of the catalogue SL = %r' % (SL,)
+    all_cl = 'every line of the catalogue CL = %r' % (CL,)
+    order2 = 'both orders of glob matches'
+    T = 400
+    if tier == 'quick':
+        obs.append(_k2_ob('root-suites', 'root-suites', T,
+                          'root suite whose [suites] section holds one line: ' + all_sl + '; ' + order2))
+        obs.append(_k2_ob('root-suites:junit', 'root-suites', T,
+                          'root suite whose [suites] section holds one line out of 6 of SL; ' + order2, junit=True,
+                          xs=_idx(SL, '', 'a.suite', 'd', '*[ab].suite', '*.suite', 'nope.suite')))
+        obs.append(_k2_ob('sub-suites', 'sub-suites', T,
+                          'root lists a.suite, b.suite; [suites] of a.suite holds one of 6 lines of SL, that of b.suite one '
+                          'of 4 (reached twice, cycle, self reference, directory, missing, glob)',
+                          xs=_idx(SL, '', 'b.suite', 'r.suite', 'a.suite', 'd', 'nope.suite'),
+                          ys=_idx(SL, '', 'a.suite', 'd', '*.suite')))
+        obs.append(_k2_ob('chain', 'chain', T, 'chain r.suite -> a.suite -> b.suite; [suites] of b.suite holds one line: '
+                          + all_sl, ng=1))
+        obs.append(_k2_ob('root-cases', 'root-cases', T,
+                          'root suite (one sub-suite) whose [cases] section holds one line: ' + all_cl + '; ' + order2,
+                          ys=[0]))
+        obs.append(_k2_ob('root-cases-pairs', 'root-cases', T,
+                          'root suite whose [cases] section holds two lines: one of 5 x one of 4 lines of CL',
+                          xs=_idx(CL, '1.case', '*.case', '*[23].case', 'nope.case', 'd/x.case'),
+                          ys=_idx(CL, '2.case', '*.case', '**/*.case', '"1.case"'), ng=1))
+    else:
+        for i, line in enumerate(SL):
+            obs.append(_k2_ob('root-suites-x2:%d' % i, 'root-suites-x2', 2 * T,
+                              'root suite whose [suites] section holds the line %r and then one more line: %s; %s' % (
+                                  line, all_sl, order2), xs=[i]))
+            obs.append(_k2_ob('sub-suites:%d' % i, 'sub-suites', T,
+                              'root lists a.suite, b.suite; [suites] of a.suite holds the line %r, that of b.suite one line: %s' % (
+                                  line, all_sl), xs=[i]))
+        for i, line in enumerate(CL):
+            obs.append(_k2_ob('root-cases:%d' % i, 'root-cases', 2 * T,
+                              'root suite (one sub-suite) whose [cases] section holds the line %r and then one more line: %s; %s' % (
+                                  line, all_cl, order2), xs=[i]))
+        for j in range(4):
+            obs.append(_k2_ob('sub-cases:%d' % j, 'sub-cases', 2 * T,
+                              'sub-suite whose [cases] section holds one line: %s; the root\'s holds %r; %s' % (
+                                  all_cl, CL[j], order2), ys=[j]))
+        obs.append(_k2_ob('chain', 'chain', 2 * T, 'chain r.suite -> a.suite -> b.suite; [suites] of b.suite holds one line: '
+                          + all_sl + '; ' + order2))
+        obs.append(_k2_ob('root-suites:junit', 'root-suites', 2 * T,
+                          'root suite whose [suites] section holds one line: ' + all_sl + '; ' + order2, junit=True))
+        obs.append(_k2_ob('chain:junit', 'chain', T, 'chain r.suite -> a.suite -> b.suite; [suites] of b.suite holds one '
+                                                     'line: ' + all_sl, junit=True, ng=1))
+        obs.append(_k2_ob('root-cases:junit', 'root-cases', 2 * T,
+                          'root suite (one sub-suite) whose [cases] section holds one line: ' + all_cl + '; ' + order2,
+                          junit=True, ys=[0]))
+    for junit in (False, True):
+        j = ':junit' if junit else ''
+        obs.append(_k2_ob('globs' + j, 'globs', T,
+                          'three-level hierarchy given by glob patterns with 2 - 3 matches each; all 6 orders in which glob may '
+                          'yield 3 matches', junit=junit))
+        obs.append(_k2_ob('outcome' + j, 'outcome', T,
+                          'valid two-suite hierarchy; the case of the sub-suite ends with each of the 14 outcomes' + (
+                              ', the first case of the root with PASS, FAIL or XFAIL' if tier == 'thorough' else ''),
+                          junit=junit, **({} if tier == 'thorough' else dict(ys=[0]))))
+    obs.append(_k2_ob('broken', 'broken', T, 'each of %d syntax errors %r in the root suite file, in a sub-suite or in a '
+                                             'sub-sub-suite' % (len(BROKEN), BROKEN)))
+    obs.append(_k2_ob('dir-arg', 'dir-arg', T,
+                      'suite given as a directory on the command line; its default suite file lists one of 7 references '
+                      '(plain, glob matching itself, itself, sub directory, missing); ' + order2))
+    if tier == 'thorough':
+        obs.append(_k2_ob('broken:junit', 'broken', T, 'each of %d syntax errors in the root suite file, in a sub-suite or '
+                                                       'in a sub-sub-suite' % len(BROKEN), junit=True))
+        obs.append(_k2_ob('dir-arg:junit', 'dir-arg', T, 'suite given as a directory on the command line', junit=True))
+    obs.append(Ob(name='K2:seeded-oracle-error', fn='k2_hierarchy', case=dict(scenario='globs', junit=False, oracle_bug=True),
+                  kernel='K2', expect=ob.REFUTE, timeout=T, selector=True, real=REAL_K2,
+                  bound='seeded oracle error: the listing suite expected before its sub-suites',
+                  stubs=(STUB_PROCESSOR_CONSTRUCTOR, STUB_PARTS, STUB_GLOB_ORDER, STUB_CLOCK, STUB_PATH_HASH)))
+    return obs
+
+
+def _k3_ob(name, timeout, bound, junit, **case):
+    c = dict(junit=junit)
+    c.update(case)
+    return Ob(name='K3:' + name, fn='k3_whole_program', case=c, kernel='K3', timeout=timeout, selector=True,
+              bound=bound + '; %s reporter' % ('JUnit' if junit else 'progress'),
+              real=REAL_K3, stubs=(STUB_MKDTEMP, STUB_CLOCK, STUB_PATH_HASH, STUB_GLOB_ORDER + ' (identity order here)'),
+              outside=OUTSIDE_REPORT + ('outcomes the real program cannot be made to produce from a case file '
+                                        '(INTERNAL_ERROR of an instruction, a raising processor): K1',),
+              entry="MainProgram.execute(['suite', '--reporter', R, FILE]) on real case files")
+
+
+def _k3_obligations(tier: str) -> List[Ob]:
+    obs = []
+    names = ', '.join(c[0] for c in REAL_CASES)
+    for junit in (False, True):
+        j = ':junit' if junit else ':progress'
+        if tier == 'quick':
+            obs.append(_k3_ob('sub' + j, 600, 'r.suite [PASS case, PASS case] listing s.suite [one real case file for each of: %s]' % names,
+                              junit, k1s=[0]))
+        else:
+            for b, cb in enumerate(REAL_CASES):
+                obs.append(_k3_ob('%d%s' % (b, j), 900,
+                                  'r.suite [%s case, PASS case] listing s.suite [one real case file for each of: %s]' % (cb[0], names),
+                                  junit, k1s=[b]))
+    obs.append(Ob(name='K3:seeded-oracle-error', fn='k3_whole_program', case=dict(junit=False, oracle_bug=True, k1s=[1]),
+                  kernel='K3', expect=ob.REFUTE, timeout=600, selector=True, real=REAL_K3,
+                  bound='seeded oracle error: the listing suite expected before its sub-suites',
+                  stubs=(STUB_MKDTEMP, STUB_CLOCK, STUB_PATH_HASH)))
+    return obs
+
+
 def obligations(tier: str) -> List[Ob]:
-    return _k1_obligations(tier)
+    return _k1_obligations(tier) + _k2_obligations(tier) + _k3_obligations(tier)
 
 
 ASSUMPTIONS = [
